@@ -139,4 +139,19 @@ TEXTS["C18"] = dict(
                "evaluator and carries its own name and public key. Completeness: every accessible account whose name whole-matches a requested path is returned, including accounts created "
                "after start-up. Compared as sets, never by order.",
     level_note="Listing of accounts created by distributed key generation (composite and share keys) is checked in C12. Trusted: Go regexp.")
+TEXTS["C10"] = dict(
+    technique="process-level simulation: seeded prior histories and generated interchange files driven through the real dirk binary as a sequence of processes, with self-kill of imports at storage points; field-wise monotonicity and coverage oracle plus behavioural probes",
+    level_text="Seeded search over (prior database, sequence of 1-3 interchange files) with every step a real process of the dirk binary built from the working tree: sign through a real stack, "
+               "export, import (a fifth killed at a drawn storage point and re-run), export, restart and probe. Oracle: no exported field ever decreases; wrong version / genesis root => "
+               "non-zero exit and unchanged export; after exit 0 every key is recorded at least at the field-wise maximum of its own history and all values of successfully imported files; "
+               "a restarted instance refuses proposals at and attestations at or below those values.",
+    level_note="Negative or unparsable numbers and non-hex keys are treated as malformed input: rejection or being ignored are both accepted, weakening is not. Trusted: badger, the JSON decoder. "
+               "Kill semantics are process kill (SIGKILL from inside the hook), not power loss.")
+TEXTS["C11"] = dict(
+    technique="process-level simulation: seeded signing histories (optionally over gob-encoded old-format records) through a real stack, exported through the rules API and the real dirk binary, re-imported into an empty directory, decisions of original and copy compared on shuffled probe sequences",
+    level_text="Seeded search over histories of well-formed single and batched requests, optionally starting from a store pre-populated with old-format records of drawn values (incl. zeros) "
+               "mixed with absent ones: every verdict must agree with the reference model started from the stored records, the export (rules API; dirk --export-slashing-protection after a "
+               "clean shutdown) must state exactly the highest slot, source and target per key, and an empty instance that imports that export must answer a shuffled probe sequence exactly "
+               "as the restarted original.",
+    level_note="Trusted: encoding/gob for producing old-format records (same field names as the original structs), badger.")
 NOT_APPLICABLE = {}
